@@ -37,6 +37,7 @@ static mut CHILD_OLD: u64 = 0;
 static mut CHILD_NEW: u64 = 0;
 static mut PARENT_STEPS: u32 = 0;
 static mut PARENT_OLD: u64 = 0;
+static mut CHILD_LOADS_AFTER_DEC: u32 = 0; // loads of the child's word after my decrement (only a callee below the depth cap does that)
 static mut PARENT_LOADS: u32 = 0;
 static mut PARENT_FIRST: u64 = 0;      // the parent's word as first read by the call (its decision is taken on this stamp)
 
@@ -76,6 +77,7 @@ fn x_load(a: &AtomicU64, _o: Ordering) -> u64 {
         env(a);
         let v = *cell(a);
         if cell(a) as usize == PARENT_WORD { if PARENT_LOADS == 0 { PARENT_FIRST = v; } PARENT_LOADS += 1; }
+        if cell(a) as usize == CHILD_WORD && CHILD_STEPS >= 1 { CHILD_LOADS_AFTER_DEC += 1; }
         v
     }
 }
@@ -227,6 +229,33 @@ fn dispose_chain_level() {
     kani::cover!(resurrected, "cover.chain.resurrected");
     kani::cover!(immediate && c < 10, "cover.chain.small_epoch");
     kani::cover!(immediate && pnow.weaked(), "cover.chain.weaked_parent");
+}}
+
+dispose_harness! {
+/// (a'') the depth passed to the recursive call: at depth 1023 the callee must be AT the cap (1024),
+/// i.e. it re-defers the child without even reading its word.  The link is stamped with the current
+/// epoch, so a callee that wrongly believes to be below the cap would read the word and take the
+/// (cheap) "recent" branch - observable, without unrolling a second level.
+#[kani::unwind(7)]
+fn dispose_recursion_depth_argument() {
+    EPOCH = kani::any();
+    kani::assume(EPOCH < (1usize << 62) && EPOCH >= 16);
+    let c = EPOCH;
+    let child = RcInner::alloc(C { next: AtomicRc::null() }, 1);
+    *cell(&(*child).state) = State::from_raw(WEAK_COUNT).add_strong(1).with_epoch(kani::any::<usize>() % 16).as_raw();
+    let link = Raw::from(child).with_high_tag(c % 16);                       // written in the current epoch: recent
+    let parent = RcInner::alloc(C { next: AtomicRc::from(Rc::from_raw(link)) }, 1);
+    let pe: usize = kani::any(); kani::assume(pe < 16 && old_enough(pe as u32, c));
+    *cell(&(*parent).state) = State::from_raw(0).add_weak(1).with_epoch(pe).as_raw();
+    PARENT = parent as usize; PARENT_WORD = cell(&(*parent).state) as usize; CHILD_WORD = cell(&(*child).state) as usize;
+    BUDGET = 0;
+    let counter = Cell::new(kani::any::<usize>() % 100_000);
+    let guard = s_cs();
+    dispose_general_node(parent, 1023, &counter, &guard);
+    assert!(POPS == 1 && CHILD_STEPS == 1 && State::from_raw(CHILD_NEW).strong() == 0, "C06.cascade.child_brought_to_zero");
+    assert!(DEFERS == 1 && DEFER_PTR == child as usize, "C07.depth.zero_child_at_cap_is_redeferred");
+    assert!(CHILD_LOADS_AFTER_DEC == 0, "C07.depth.recursive_call_passes_depth_plus_one");
+    assert!(counter.get() >= 2, "C07.counter.shared_with_the_recursive_call");
 }}
 
 /// tree-shaped node: two outgoing edges, handed out in order (first, next)
